@@ -199,8 +199,12 @@ def run(prop, tier, seed):
         for c in ("finite", "cert"):
             ck.clause(c, c not in names)
         for c in sorted(names & {"finite", "cert"}):
-            ck.violation(c, dict(meta, clause=c), dict(kind="cell", replay_module="harness.checks.matrix",
-                                                       property=prop, clause=c, meta=meta))
+            from . import solverprops
+            pos = {cc: pp for cc, pp in vs.bad(t["id"])}[c]
+            m2 = dict(meta, clause=c)
+            m2.update(solverprops._explain(t, pos, c))          # quantitative signature (known findings are narrow)
+            ck.violation(c, m2, dict(kind="cell", replay_module="harness.checks.matrix",
+                                     property=prop, clause=c, meta=meta))
     return ck.finish()
 
 
